@@ -56,7 +56,11 @@ class Scenario:
                                               is_complex=False, num_subchannels=1, is_continuous=True,
                                               marching_periods=False)
         nf = common.number_form
-        self.mdw = digital_rf.DigitalMetadataWriter(self.md, nf(res.rng, sc), nf(res.rng, fc), nf(res.rng, n), nf(res.rng, d), PREFIX)
+        # the file-name prefix is the caller's choice (anything without '/' and '@'): rotate a few, among them names
+        # that are not a plain word
+        from props import c13 as _c13
+        self.prefix = res.rng.choice(_c13.PREFIXES + ["site-a.meta", "rx-1"])
+        self.mdw = digital_rf.DigitalMetadataWriter(self.md, nf(res.rng, sc), nf(res.rng, fc), nf(res.rng, n), nf(res.rng, d), self.prefix)
         self.readers = []
         self.spec = {}
         self.has_opt = {}
@@ -115,7 +119,7 @@ class Scenario:
 
     def replay_input(self, what):
         return {"n": self.n, "d": self.d, "fc": self.fc, "sc": self.sc, "t0": self.t0, "ops": list(self.log),
-                "failing_call": what}
+                "failing_call": what, "prefix": self.prefix}
 
     # ---- ops
     def md_write(self):
@@ -508,7 +512,8 @@ def replay(res, rp):
     top = common.scratch_dir()
     md = os.path.join(top, "ch0", "metadata")
     os.makedirs(md)
-    w = digital_rf.DigitalMetadataWriter(md, i["sc"], i["fc"], i["n"], i["d"], PREFIX)
+    print("metadata file-name prefix:", repr(i.get("prefix", PREFIX)))
+    w = digital_rf.DigitalMetadataWriter(md, i["sc"], i["fc"], i["n"], i["d"], i.get("prefix", PREFIX))
     readers, spec, bad = [], {}, False
     hbs = set()
     for op in i["ops"]:
